@@ -77,6 +77,9 @@ class GenAny(Generic[T_]): pass
 class GenBound(Generic[B_]): pass
 class GenConstr(Generic[C_]): pass
 NT = typing.NewType("NT", int)
+type _Box[T] = list[T]
+type _PairA[K, V] = dict[K, V]
+def _ann_unhash(v): return typing.Annotated[int, {"a": v}]
 def _mk_same(): return type("SameName", (), {})
 _SameName1, _SameName2 = _mk_same(), _mk_same()
 _SameNT1, _SameNT2 = typing.NewType("SameNT", int), typing.NewType("SameNT", str)
@@ -141,6 +144,18 @@ GROUPS = {
  "samekey_cls": [List[Union[_SameName1, _SameName2]], list[Union[_SameName2, _SameName1]]],
  "samekey_newtype": [List[Union[_SameNT1, _SameNT2]], list[Union[_SameNT2, _SameNT1]]],
  "samekey_callable": [List[Union[typing.Callable[[List[int]], int], typing.Callable[[list[int]], str]]], list[Union[typing.Callable[[list[int]], str], typing.Callable[[List[int]], int]]]],
+ # generic PEP 695 aliases: each parametrisation is a type of its own; evaluated twice it is the same type
+ "alias_box_int": [_Box[int], _Box[int]],
+ "alias_box_str": [_Box[str]],
+ "opt_alias_box_int": [Optional[_Box[int]], Union[None, _Box[int]], _Box[int] | None],
+ "list_alias_box_str": [List[_Box[str]], list[_Box[str]]],
+ "alias_box_bare": [_Box],
+ "alias_pair_is": [_PairA[int, str], _PairA[int, str]],
+ "alias_pair_si": [_PairA[str, int]],
+ # Annotated metadata that is not hashable: two evaluations of one hint are equal AND hash alike; other metadata is another type
+ "ann_unhash_a1": [_ann_unhash(1), _ann_unhash(1)],
+ "ann_unhash_a2": [_ann_unhash(2)],
+ "ann_unhash_list": [typing.Annotated[int, [1]], typing.Annotated[int, [1]]],
  "samekey_dict": [Dict[str, Union[Tuple[Literal[0]], Tuple[Literal["0"]]]], dict[str, Union[tuple[Literal["0"]], tuple[Literal[0]]]]],
 }
 NORMS = {g: [normalize_type(t) for t in ts] for g, ts in GROUPS.items()}
@@ -199,7 +214,7 @@ LOADERS = {}
 DUMPERS = {}
 BUILD_ERRORS = []
 for _g, _ts in GROUPS.items():
-    if _g in ("gen_any", "gen_bound", "gen_constr", "samekey_cls", "samekey_callable"):
+    if _g in ("gen_any", "gen_bound", "gen_constr", "samekey_cls", "samekey_callable", "alias_box_bare", "ann_unhash_a1", "ann_unhash_a2", "ann_unhash_list"):
         continue
     for _i, _t in enumerate(_ts):
         for _strict in (True, False):
